@@ -204,6 +204,7 @@ fn emit_wrapped_loop_choice_body(
     let mut body_already_emitted = false;
 
     if let Some(selected_text) = &choice.selected_text {
+        let mut tags_already_emitted = false;
         let recovered_inline_divert = if choice.body.is_empty() {
             recover_selected_text_inline_divert(selected_text)
         } else {
@@ -216,6 +217,9 @@ fn emit_wrapped_loop_choice_body(
             && matches!(choice.body.as_slice(), [Node::Divert(_)])
         {
             branch_nodes.extend(tokenize_inline_content(&format!(" {selected_text}"))?);
+            // the tags of the selected text belong to its line: they stand before the divert
+            branch_nodes.extend(choice.selected_tags.iter().cloned().map(Node::Tag));
+            tags_already_emitted = true;
             branch_nodes.extend(choice.body.clone());
             branch_nodes.push(Node::Newline);
             body_already_emitted = true;
@@ -231,7 +235,9 @@ fn emit_wrapped_loop_choice_body(
         } else if !choice.has_start_content {
             branch_nodes.extend(tokenize_inline_content(selected_text)?);
         }
-        branch_nodes.extend(choice.selected_tags.iter().cloned().map(Node::Tag));
+        if !tags_already_emitted {
+            branch_nodes.extend(choice.selected_tags.iter().cloned().map(Node::Tag));
+        }
         if !body_already_emitted && !choice.has_start_content {
             let body_is_terminal_divert = choice.body_divert_is_inline
                 && matches!(
